@@ -3,6 +3,7 @@ pub mod c02;
 pub mod c03;
 pub mod c08;
 pub mod c15;
+pub mod c16;
 pub mod c19;
 pub mod c04;
 pub mod c05;
@@ -35,6 +36,7 @@ pub fn dispatch(args: &Args, rep: &Arc<Report>) -> bool {
         "c11" => c11::run(args, rep),
         "c12" => c12::run(args, rep),
         "c13" => c13::run(args, rep),
+        "c16" => c16::run(args, rep),
         "c19" => c19::run(args, rep),
         "dump" => dump(args),
         _ => return false,
